@@ -361,4 +361,34 @@ def N15():  # a secret in a blob that a tag points at directly is reported but c
         shutil.rmtree(root, ignore_errors=True)
 
 
+def N17():  # second run: a message cites a commit this run rewrites; the real run translates the citation, the dry run cannot
+    root, repo = new_repo()
+    try:
+        commit(repo, {'a': 'a', 'b': 'b'}, 'c1')
+        h = e2e.git(repo, 'rev-parse', 'HEAD').decode().strip()
+        commit(repo, {'a': 'a2'}, f'follow-up to {h[:12]}')
+        rc0, _, _ = tool(repo, '--force')                      # an earlier (no-op) run leaves its commit-map
+        copy = os.path.join(root, 'copy'); shutil.copytree(repo, copy, symlinks=True)
+        rc1, _, _ = tool(repo, '--force', '--dry-run', '--path', 'a')
+        rc2, _, _ = tool(copy, '--force', '--path', 'a')
+        f = lambda r: open(os.path.join(r, '.git/filter-repo/fast-export.filtered'), 'rb').read()
+        return rc0 != 0 or rc1 != 0 or rc2 != 0 or f(repo) != f(copy)
+    finally:
+        shutil.rmtree(root, ignore_errors=True)
+
+
+def N18():  # --max-blob-size on an object store with 1 500 empty loose-object files never returned (cat-file's stderr pipe filled up)
+    root, repo = new_repo()
+    try:
+        commit(repo, {'f': 'hello'}, 'one')
+        for i in range(1500):
+            h = '%040x' % (1000000 + i)
+            os.makedirs(os.path.join(repo, '.git', 'objects', h[:2]), exist_ok=True)
+            open(os.path.join(repo, '.git', 'objects', h[:2], h[2:]), 'wb').close()
+        rc, _, _ = tool(repo, '--force', '--max-blob-size', '1000', timeout=60)
+        return rc == 124          # did not return within a minute
+    finally:
+        shutil.rmtree(root, ignore_errors=True)
+
+
 RECIPES = {k: v for k, v in list(globals().items()) if callable(v) and k[0] in 'FNR' and k[1:].isdigit()}
